@@ -27,10 +27,15 @@ class C15:
     def setup(self, ctx):
         self.x = rw.xd()
         self.opcs = {}
+        self.pypy_opcs = {}
         self.apis = {}
         for v in VERSIONS:
             vt = tuple(int(p) for p in v.split("."))
             self.opcs[v] = self.x.disasm.get_opcode(vt, False)
+            try:
+                self.pypy_opcs[v] = self.x.disasm.get_opcode(vt, True)
+            except Exception:
+                self.pypy_opcs[v] = None
             try:
                 self.apis[v] = self.x.std.make_std_api(vt, None)
             except Exception:
@@ -91,12 +96,19 @@ class C15:
         bad = None
         xse = self.x.cross_dis.xstack_effect
         api = self.apis[v]
+        pypy = self.pypy_opcs.get(v)
         for a, exp in zip(args, refs):
             if exp is None:
                 continue
             n += 1
             if a > 2:
                 keys.append([v, op, a])
+            if pypy is not None:
+                # the PyPy table of the same version is asked first: an answer for one table must not colour the other's
+                try:
+                    xse(op, pypy, a)
+                except Exception:
+                    pass
             try:
                 got = xse(op, opc, a)
             except Exception as e:
